@@ -20,7 +20,7 @@ CLAIMS = {
          "DESIGN.md 3 (C01)"),
  "C02": ("The precommit ring buffer against its abstract sequence: put/readAhead/advanceReader/recedeWriter/freeSlots preserve the representation "
          "invariant, change the element count exactly as specified, write exactly the slot at the new write position and leave every other element "
-         "unchanged (quantified frame), and readAhead(n) returns element n; the commit-state functions (mayCommit, AllowCommitUpto, DiscardPrecommittedTxsSince, accessors) "
+         "unchanged (quantified frame), and readAhead(n) returns element n; the commit-state functions (mayCommit, AllowCommitUpto, accessors; performPrecommit on its early error paths) "
          "keep committedTxID monotone, set committedAlh to the Alh of the last committed buffer entry and preserve the ordering lock invariant; TxReader.Read accepts a transaction only if it chains to the previously "
          "read one (ascending: PrevAlh, descending: Alh). Narrower than the property: the commit-state lock invariant, restart, compaction and file "
          "contents are not decided.",
@@ -63,8 +63,9 @@ CLAIMS = {
          "DESIGN.md 3 (C06)"),
  "C07": ("Commit-state functions of the replica path under value contracts: mayCommit moves the committed frontier exactly to the allowance, sets committedAlh "
          "to the Alh of the last committed ring-buffer entry, leaves everything on error and preserves the ordering lock invariant (committed <= allowance <= "
-         "precommitted); AllowCommitUpto is monotone and capped by the precommitted id and fails without external allowance; DiscardPrecommittedTxsSince never "
-         "touches the committed pair, only lowers the precommitted id, never below the committed id, and voids the allowance of discarded transactions; "
+         "precommitted); AllowCommitUpto is monotone and capped by the precommitted id and fails without external allowance; DiscardPrecommittedTxsSince recedes the "
+         "durable-precommit watermark consistently at the return sites that decide within budget (its full contract - committed pair untouched, allowance of "
+         "discarded transactions voided - is written and was discharged, but is too unstable in solver time to be registered); "
          "PrecommittedAlh / accessors; OngoingTx.validateAgainst accepts a header only with matching entry count and metadata; Tx.Header copies the header "
          "fields. Not decided: performPrecommit and precommit (contracts written, not discharged within budget), ReplicateTx end to end, replicator goroutines, "
          "delivery schedules, network.",
